@@ -76,8 +76,14 @@ def create_tree_using_stacks(g: Grammar, r: ListWrapper, failures_limit=100):
     stacks: dict[type, list[Any]] = {k: [] for k in all_stack_types}
 
     failures = 0
+    # The genome is read cyclically, and an operation that succeeds (e.g. pushing one more int) is not a failure: without a
+    # bound on the number of operations a genome that never assembles a program -- a constant one, for instance -- is read
+    # round and round forever. A genome of n genes encodes at most `failures_limit` passes over it.
+    steps = 0
+    max_steps = failures_limit * len(r.dna)
 
-    while not stacks[g.starting_symbol] and failures < failures_limit:
+    while not stacks[g.starting_symbol] and failures < failures_limit and steps < max_steps:
+        steps += 1
         try:
             weights = g.get_weights()
             target_type: type[Any] = r.choice_weighted(
